@@ -4,26 +4,25 @@ From Coq Require Import String List.
 Import ListNotations.
 Open Scope string_scope.
 
-Definition exp_registry : list (string * string) := [("torch.nn.Linear", "QLinear"); ("torch.nn.Conv2d", "QConv2d"); ("torch.nn.LayerNorm", "QLayerNorm")].
-Definition exp_qcreate : list (string * list string) := [("QLinear", ["module.in_features"; "module.out_features"; "module.bias is not None"; "dtype=module.weight.dtype"; "device=module.weight.device"; "weights=weights"; "activations=activations"; "optimizer=optimizer"]); ("QLinear.returns_none_if", []); ("QConv2d", ["in_channels=module.in_channels"; "out_channels=module.out_channels"; "kernel_size=module.kernel_size"; "stride=module.stride"; "padding=module.padding"; "dilation=module.dilation"; "groups=module.groups"; "bias=module.bias is not None"; "padding_mode=module.padding_mode"; "dtype=module.weight.dtype"; "device=module.weight.device"; "weights=weights"; "activations=activations"; "optimizer=optimizer"]); ("QConv2d.returns_none_if", []); ("QLayerNorm", ["module.normalized_shape"; "module.eps"; "module.elementwise_affine"; "module.bias is not None"; "dtype=module.weight.dtype"; "device=module.weight.device"; "weights=None"; "activations=activations"; "optimizer=None"]); ("QLayerNorm.returns_none_if", ["activations is None"])].
+Definition exp_qcreate : list (string * list string) := [("QLinear", ["module.in_features"; "module.out_features"; "module.bias is not None"; "dtype=module.weight.dtype"; "device=module.weight.device"; "weights=weights"; "activations=activations"; "optimizer=optimizer"]); ("QLinear.returns_none_if", []); ("QConv2d", ["in_channels=module.in_channels"; "out_channels=module.out_channels"; "kernel_size=module.kernel_size"; "stride=module.stride"; "padding=module.padding"; "dilation=module.dilation"; "groups=module.groups"; "bias=module.bias is not None"; "padding_mode=module.padding_mode"; "dtype=module.weight.dtype"; "device=module.weight.device"; "weights=weights"; "activations=activations"; "optimizer=optimizer"]); ("QConv2d.returns_none_if", []); ("QLayerNorm", ["module.normalized_shape"; "module.eps"; "module.elementwise_affine"; "module.bias is not None"; "dtype=None if module.weight is None else module.weight.dtype"; "device=None if module.weight is None else module.weight.device"; "weights=None"; "activations=activations"; "optimizer=None"]); ("QLayerNorm.returns_none_if", ["activations is None"])].
 Definition exp_qweight_call : list string := ["self.weight"; "qtype=self.weight_qtype"; "axis=0"; "group_size=self.weight_group_size"; "optimizer=self.optimizer"].
 Definition exp_qweight_early : list string := ["self.weight_qtype is None -> return None"; "isinstance(self.weight, QTensor) -> return self.weight"].
 Definition exp_freeze_body : list string := ["qweight = self.qweight"; "if qweight is not None:
     self.weight = torch.nn.Parameter(qweight)"].
 Definition exp_quantize_module : string := "59a4a6c554acd773".
-Definition exp_quantize_loop : list string := ["model.named_modules()"; "if modules is not None and m not in modules:"; "qmodule = quantize_module(m, **kwargs)"; "if qmodule is not None:"].
+Definition exp_quantize_loop : list string := ["list(model.named_modules(remove_duplicate=False))"; "if modules is not None and m not in modules:"; "if m in qmodules:"; "qmodule = quantize_module(m, **kwargs)"; "if qmodule is not None:"].
 Definition exp_mod_prints : list (string * string) := [
-  ("quantize", "04fd6616eba734ea");
+  ("quantize", "fcf727d0d1ba219e");
   ("set_module_by_name", "00b3ccf54ac25d90");
   ("freeze", "25477e5a81180cfa");
   ("requantize", "69ea8b35b7db9df3");
-  ("QModuleMixin.__init__", "8bf874c97e889038");
+  ("QModuleMixin.__init__", "e536293c6641529a");
   ("QModuleMixin.forward", "e5d7e41419d87137");
-  ("QModuleMixin.from_module", "e73d18b90b8bf7aa");
+  ("QModuleMixin.from_module", "059224bb43d933b3");
   ("QModuleMixin.qweight", "33719e3f9683cdee");
   ("QModuleMixin.freeze", "40281660ccdf703e");
   ("QModuleMixin.frozen", "64231379173d0229");
-  ("QModuleMixin._save_to_state_dict", "bef7eba29cfad0ea");
+  ("QModuleMixin._save_to_state_dict", "7d403032e904c165");
   ("QModuleMixin._load_from_state_dict", "9bac238ec67b0a05");
   ("register_qmodule", "59baa70174e2857d");
   ("quantize_module", "59a4a6c554acd773");
@@ -31,5 +30,5 @@ Definition exp_mod_prints : list (string * string) := [
   ("QLinear.qforward", "d786605ad6fb6e19");
   ("QConv2d.qcreate", "5bcb85c03b1f8ed0");
   ("QConv2d.qforward", "a1335c170222ed06");
-  ("QLayerNorm.qcreate", "c0826a6f0c459ec6");
+  ("QLayerNorm.qcreate", "b3b64f4996dc469d");
   ("QLayerNorm.qforward", "ba00142f0be8eb7e")].
